@@ -47,7 +47,11 @@ def m_full():
                                     debug=dbg))],
               static_values=[EV("int", -1), EV("long", 1 << 40)],
               annotations=[Annotation("La/Ann;", [("value", EV("string", "q")), ("n", EV("byte", -3)),
-                                                  ("arr", EV("array", [EV("int", 1), EV("type", "La/B;")]))])])
+                                                  ("arr", EV("array", [EV("int", 1), EV("type", "La/B;")])),
+                                                  # values that reference the id tables (as EnclosingMethod annotations do)
+                                                  ("meth", EV("method", ("La/B;", "t", "I", ("I", "J")))),
+                                                  ("fld", EV("field", ("La/B;", "s", "I"))),
+                                                  ("en", EV("enum", ("La/B;", "s", "I")))])])
     A.field_annotations = [(A.ifields[0], [Annotation("La/Ann;", [("value", EV("string", "onfield"))])])]
     A.method_annotations = [(A.vmethods[0], [Annotation("La/Ann;", [("value", EV("boolean", True))], visibility=2)])]
     B = Class("La/B;", sfields=[Field("s", "I", ACC_STATIC)],
